@@ -58,6 +58,11 @@ pub struct Sim {
     overrides: HashMap<usize, usize>,
     pub task_job: HashMap<usize, String>,
     parked: HashSet<usize>,
+    /// task -> (job, n): parked until that job has made its n-th effective write
+    held_until_write: HashMap<usize, (String, u32)>,
+    pub writes_by_job: BTreeMap<String, u32>,
+    /// jobs that replaced a value another job had written, with how many writes they made in all
+    pub rewriters: BTreeSet<String>,
     rushed: Option<usize>,
     prio: HashMap<usize, i64>,
     low_prio: i64,
@@ -521,7 +526,34 @@ fn h_wrote(ty: &'static str, id: &dyn Debug) {
         *n += 1;
         let version = format!("{job}#{n}");
         sim.emit(|| format!("{job} wrote {item} = {version}"));
+        let count = {
+            let c = sim.writes_by_job.entry(job.clone()).or_default();
+            *c += 1;
+            *c
+        };
+        let released: Vec<usize> = sim
+            .held_until_write
+            .iter()
+            .filter(|(_, (j, n))| j == &job && *n <= count)
+            .map(|(t, _)| *t)
+            .collect();
+        let any_released = !released.is_empty();
+        for t in released {
+            sim.held_until_write.remove(&t);
+            sim.parked.remove(&t);
+            sim.probe("held-send-released-mid-job");
+        }
+        if any_released {
+            // ... and the writer now becomes the slow one, so that whatever the released
+            // message sets in motion happens while the writer is still at work
+            sim.parked.insert(task);
+        }
         sim.written_items.insert(item.clone());
+        if let Some(prev) = sim.versions.get(&item) {
+            if !prev.starts_with(&format!("{job}#")) && job != MAIN {
+                sim.rewriters.insert(job.clone());
+            }
+        }
         sim.versions.insert(item, version.clone());
         sim.by_ty.entry(ty).or_default().insert(idt, version);
     });
@@ -620,9 +652,17 @@ fn h_event(what: &'static str, id: &dyn Debug, detail: Option<&dyn Debug>) {
     let task = me();
     let idt = format!("{id:?}");
     let do_yield = with(|sim| {
-        let victim = sim.plan().strategy.victim.clone();
-        let strat = sim.plan().strategy.name.clone();
-        let is_victim = victim.as_deref() == Some(idt.as_str());
+        // the roles this job plays: the strategy's own victim and any further singled-out jobs
+        let mut roles: Vec<String> = Vec::new();
+        if sim.plan().strategy.victim.as_deref() == Some(idt.as_str()) {
+            roles.push(sim.plan().strategy.name.clone());
+        }
+        for (name, job) in &sim.plan().strategy.also {
+            if job == &idt {
+                roles.push(name.clone());
+            }
+        }
+        let has = |r: &str| roles.iter().any(|x| x == r);
         match what {
             "launch" => {
                 let window = !sim.ended_unhandled.is_empty();
@@ -639,18 +679,13 @@ fn h_event(what: &'static str, id: &dyn Debug, detail: Option<&dyn Debug>) {
                 sim.job_order.push(idt.clone());
                 sim.started_count += 1;
                 sim.emit(|| format!("start {idt} task={task}"));
-                if is_victim {
-                    match strat.as_str() {
-                        "delay-start" => {
-                            sim.parked.insert(task);
-                            sim.probe("victim-parked");
-                        }
-                        "rush" => {
-                            sim.rushed = Some(task);
-                            sim.probe("victim-rushed");
-                        }
-                        _ => {}
-                    }
+                if has("delay-start") {
+                    sim.parked.insert(task);
+                    sim.probe("victim-parked");
+                }
+                if has("rush") {
+                    sim.rushed = Some(task);
+                    sim.probe("victim-rushed");
                 }
                 true
             }
@@ -670,20 +705,29 @@ fn h_event(what: &'static str, id: &dyn Debug, detail: Option<&dyn Debug>) {
                 sim.job_end_order.push(idt.clone());
                 sim.ended_unhandled.insert(idt.clone());
                 sim.emit(|| format!("end {idt} ok={:?}", detail.map(|d| format!("{d:?}"))));
-                if is_victim && strat == "delay-done-a" {
+                if has("delay-done-a") {
                     sim.parked.insert(task);
                     sim.probe("victim-parked");
-                }
-                if sim.rushed == Some(task) && strat != "rush" {
-                    sim.rushed = None;
                 }
                 true
             }
             "pre-send" => {
                 sim.emit(|| format!("pre-send {idt}"));
-                if is_victim && strat == "delay-done-b" {
+                if has("delay-done-b") {
                     sim.parked.insert(task);
                     sim.probe("victim-parked");
+                }
+                // hold-send-until-write:<job>:<n> - keep the completion message back until
+                // another job is in the middle of its work
+                if let Some(spec) = roles.iter().find_map(|r| r.strip_prefix("hold-send-until-write:")) {
+                    if let Some((job, n)) = spec.rsplit_once(':') {
+                        let n: u32 = n.parse().unwrap_or(1);
+                        if sim.writes_by_job.get(job).copied().unwrap_or(0) < n {
+                            sim.parked.insert(task);
+                            sim.held_until_write.insert(task, (job.to_string(), n));
+                            sim.probe("send-held-until-write");
+                        }
+                    }
                 }
                 true
             }
